@@ -336,6 +336,15 @@ def present(spec):
         elif mode == 'swap' and len(nodes) >= 2:
             a, b = rng.sample(nodes, 2)
             names[a], names[b] = names[b], names[a]
+        elif mode == 'swapdeg':
+            # the names of two atoms of the same element with the same number of bonds (but not interchangeable in the
+            # block) are exchanged: everything about the residue matches the block name by name, except the bonds
+            cands = [(a, b) for a, b in itertools.combinations(nodes, 2)
+                     if block.nodes[a]['element'] == block.nodes[b]['element'] and block.degree[a] == block.degree[b]
+                     and set(block[a]) - {b} != set(block[b]) - {a}]
+            if cands:
+                a, b = rng.choice(cands)
+                names[a], names[b] = names[b], names[a]
         elif mode == 'dup' and len(nodes) >= 2:
             # two atoms carry the same name (ties in the sort of make_reference)
             a, b = rng.sample(nodes, 2)
@@ -501,7 +510,8 @@ class RefSpy:
             return blk
 
         def addel(graph):
-            spy.addel.append(dict(nodes=[(n, name_state(graph.nodes[n]), graph.nodes[n].get('element'),
+            spy.addel.append(dict(residx=len(spy.getref) - 1,
+                                  nodes=[(n, name_state(graph.nodes[n]), graph.nodes[n].get('element'),
                                           'element' in graph.nodes[n]) for n in graph.nodes],
                                   edges=[(u, v) for u, v in graph.edges]))
             return o_addel(graph)
@@ -511,7 +521,7 @@ class RefSpy:
                 return getattr(o_nx, name)
 
             def relabel_nodes(self, G, mapping, copy=True):
-                spy.relabels.append((list(G.nodes), list(mapping.items())))
+                spy.relabels.append((list(G.nodes), list(mapping.items()), len(spy.getref) - 1))
                 return o_nx.relabel_nodes(G, mapping, copy=copy)
 
         class SpyISMAGS(o_ismags):
@@ -520,7 +530,7 @@ class RefSpy:
                 self._rec = None
                 if cache is not None:       # the call of make_reference (the one of _patch_modification has no cache)
                     self._rec = dict(graph=graph, subgraph=subgraph, node_match=node_match, cache=cache, answers=[],
-                                     exhausted=False, gen=None)
+                                     exhausted=False, gen=None, residx=len(spy.getref) - 1)
                     spy.ismags.append(self._rec)
 
             def largest_common_subgraph(self, symmetry=True):
@@ -538,6 +548,13 @@ class RefSpy:
                 return rec['gen']
 
         self.patch = (getref, addel, NxProxy(), SpyISMAGS)
+
+    def of_residue(self, i):
+        """(graphs before add_element_attr, relabelling calls, matcher call) recorded while residue i was processed"""
+        ad = [a for a in self.addel if a['residx'] == i]
+        rl = [r for r in self.relabels if r[2] == i]
+        im = [r for r in self.ismags if r['residx'] == i]
+        return ad, rl, (im[0] if len(im) == 1 else None), len(im)
 
     def __enter__(self):
         RG._get_reference_residue, RG.add_element_attr, RG.nx, RG.ISMAGS = self.patch
@@ -976,7 +993,7 @@ def cache_transparent(spy):
     the one a matcher without cache gives"""
     errs = []
     for i, rec in enumerate(spy.ismags):
-        if i == 0 or len(rec['graph']) > 24 or not rec['answers']:
+        if i == 0 or len(rec['graph']) > 24 or not rec['answers'] or rec['node_match'] is None:
             continue
         try:
             try:
@@ -1027,20 +1044,24 @@ def ref_lines(mol_in, pre, res):
         else:
             impl = enc(g['block']['nodes']) + ' ' + enc(g['block']['edges'])
         out.append(('getref-%d' % i, ln, impl))
-        if 'error' in g or len(spy.addel) < 2 * i + 1:
+        ad, rl, rec, ncalls = spy.of_residue(i)
+        if 'error' in g or not ad:
             break
-        refpre = spy.addel[2 * i]
+        refpre = ad[0]
         idx = {n[0]: j for j, n in enumerate(refpre['nodes'])}
         refatoms = [[idx[n], nm, elcode(el) if has else None] for n, nm, el, has in refpre['nodes']]
         refedges = [[idx[u], idx[v]] for u, v in refpre['edges']]
-        rec = spy.ismags[i] if i < len(spy.ismags) else None
         answers = [[[a, b] for a, b in ans] for ans in rec['answers']] if rec else []
         req['answers'] = answers
         ln = line('mkref', req['atoms'], req['edges'], refatoms, refedges, answers)
-        if rec is None:
-            impl = err_kind(status, res['records'], '') if failed else 'no-matcher-call'
+        if rec is None or len(rl) != 2:
+            if failed and i == len(spy.getref) - 1:
+                impl = err_kind(status, res['records'], '')
+            else:
+                # make_reference went on without asking the matcher exactly once through the relabelled graphs
+                impl = 'matcher-calls=%d relabellings=%d match=%s' % (ncalls, len(rl), by_residx[i]['match'] if i in by_residx else None)
         else:
-            rl_res, rl_ref = spy.relabels[2 * i], spy.relabels[2 * i + 1]
+            rl_res, rl_ref = rl
             matrix = [''.join('1' if rec['node_match'](rec['graph'].nodes[a], rec['subgraph'].nodes[b]) else '0'
                               for b in rec['subgraph'].nodes) for a in rec['graph'].nodes]
             sub, gr = graph_enc(rec['subgraph']), graph_enc(rec['graph'])
@@ -1052,7 +1073,7 @@ def ref_lines(mol_in, pre, res):
                              enc(sub[0]), enc(sub[1]), enc(gr[0]), enc(gr[1]), enc(matrix)]
                             + ([enc(match)] if not failed else ['*']))
         out.append(('mkref-%d' % i, ln, impl))
-        if rec is None:
+        if rec is None and failed and i == len(spy.getref) - 1:
             break
     # the whole pipeline
     if status == 'ok' or failed:
@@ -1081,15 +1102,15 @@ def mcis_lines(mol_in, pre, res):
     spy, snap = res['spy'], res['snap']
     by_residx = {r['residx']: r for r in snap['residues']}
     for i, req in enumerate(pre['reqs']):
-        if i >= len(spy.ismags) or 2 * i + 1 >= len(spy.relabels):
-            break
-        rec = spy.ismags[i]
+        ad, rl, rec, ncalls = spy.of_residue(i)
+        if rec is None or len(rl) != 2:
+            continue
         if len(rec['graph']) > 10 or len(rec['subgraph']) > 13:
             continue
-        old_res = {new: old for old, new in spy.relabels[2 * i][1]}
-        refnodes = spy.relabels[2 * i + 1][0]
+        old_res = {new: old for old, new in rl[0][1]}
+        refnodes = rl[1][0]
         idx = {n: j for j, n in enumerate(refnodes)}
-        old_ref = {new: idx[old] for old, new in spy.relabels[2 * i + 1][1]}
+        old_ref = {new: idx[old] for old, new in rl[1][1]}
         gn = [[old_res[n], elcode(rec['subgraph'].nodes[n].get('element'))] for n in rec['subgraph'].nodes]
         ge = [[old_res[u], old_res[v]] for u, v in rec['subgraph'].edges]
         sn = [[old_ref[n], elcode(rec['graph'].nodes[n].get('element'))] for n in rec['graph'].nodes]
@@ -1192,7 +1213,7 @@ def gen_specs(rng):
             xk = 4 if n <= 15 else 2      # extra atoms with names kept (timing bounds of DESIGN 5.4)
             pres = [
                 dict(names='x'), dict(names='shuffle'), dict(perm=True), dict(names='x', perm=True),
-                dict(names='shuffle', perm=True), dict(names='swap'),
+                dict(names='shuffle', perm=True), dict(names='swap'), dict(names='swapdeg', perm=rng.random() < 0.5),
                 dict(names='keep', perm=True, missing=rng.randint(1, 4)),
                 dict(names='keep', extra=rng.randint(1, xk)),
                 dict(names='keep', perm=True, missing=rng.randint(1, 4), extra=rng.randint(1, xk)),
@@ -1203,7 +1224,7 @@ def gen_specs(rng):
                 dict(names='keep', missing_h=rng.randint(2, 6)),
             ]
             if not chk.thorough:
-                pres = rng.sample(pres[:6], 3) + rng.sample(pres[6:], 4)
+                pres = rng.sample(pres[:7], 3) + rng.sample(pres[7:], 4)
                 if big and b not in aa:
                     # name-scrambled symmetric lipids/sugars above 20 atoms run into the ISMAGS time-out: thorough tier only
                     pres = [p for p in pres if p.get('names', 'keep') in ('keep', 'swap')]
@@ -1349,6 +1370,7 @@ def ref_specs(rng):
             add([dict(ff=ffname, block=b, names=rng.choice(['keep', 'x']), perm=True, noname=rng.randint(1, 2),
                       nonename=rng.randint(0, 2), missing=rng.randint(0, 1))])
             add([dict(ff=ffname, block=b, names='dup', perm=rng.random() < 0.5, missing=rng.randint(0, 1))])
+            add([dict(ff=ffname, block=b, names='swapdeg', perm=rng.random() < 0.5)])
             add([dict(ff=ffname, block=b, names='keep', unguessable=rng.choice(['digit', 'absent', 'none']))])
     # refused requests
     for ffname in ('charmm', 'amber'):
@@ -1570,6 +1592,187 @@ for (cid, ln, impl), mo in zip(patch_cases, pans):
     chk.case('patch-' + cid, ln, impl, model, [], True)
     if model is not None and model != impl:
         chk.notes.append('patch-%s: reference of the code %s / model %s' % (cid, clip(str(dec(impl)), 600), clip(str(try_dec(model)), 600)))
+
+# ---- whole peptides with the terminal modifications the command line requests -----------------------------
+# AnnotateMutMod(modifications=[('nter', 'N-ter'), ('cter', 'C-ter')]) (what martinize2 passes by default) followed by
+# RepairGraph, on a small peptide listed in several orders: residues N-to-C, C-to-N, permuted, all atoms interleaved,
+# random keys, names replaced.  The repaired peptide - atoms as (resid, canonical name, element), bonds between them,
+# marked atoms - must be the SAME for every listing, must be the complete patched peptide, and the terminal atoms must
+# sit on the residues with the lowest / highest resid.
+from vermouth.processors.annotate_mut_mod import AnnotateMutMod
+from vermouth.system import System
+
+
+def peptide_specs(rng):
+    specs = []
+    for ffname in ('charmm', 'amber'):
+        ff, good = FFS[ffname]
+        if 'N-ter' not in ff.modifications or 'C-ter' not in ff.modifications:
+            continue
+        pool = [b for b in ('GLY', 'ALA', 'SER', 'VAL', 'THR', 'ASP', 'ASN', 'CYS', 'LEU', 'ILE', 'GLU', 'MET')
+                if b in good and len(good[b]) <= 20
+                and expected_patch(good[b], [ff.modifications['N-ter']]) is not None
+                and expected_patch(good[b], [ff.modifications['C-ter']]) is not None]
+        for t in range(8 if chk.thorough else 3):
+            n = rng.randint(2, 4)
+            specs.append(dict(ff=ffname, seq=[rng.choice(pool) for _ in range(n)], resid0=rng.choice([1, 1, 7, 120]),
+                              missing_h=rng.choice([0, 0, 1, 2]), seed=rng.randrange(10 ** 9),
+                              scramble=all(len(good[b]) <= 12 for b in pool[:0]) or t == 0))
+    return specs
+
+
+def build_peptide(spec):
+    """-> atoms [(resid, name, element, resname, added by a terminal modification)], bonds [((resid, name), (resid, name))]"""
+    ff, good = FFS[spec['ff']]
+    atoms, bonds = [], []
+    last = len(spec['seq']) - 1
+    for i, resname in enumerate(spec['seq']):
+        resid = spec['resid0'] + i
+        mods = ([ff.modifications['N-ter']] if i == 0 else []) + ([ff.modifications['C-ter']] if i == last else [])
+        g = expected_patch(good[resname], mods) if mods else expected_patch(good[resname], [])
+        for nm in g.nodes:
+            atoms.append((resid, nm, g.nodes[nm]['element'], resname, bool(g.nodes[nm]['ptm'])))
+        for u, v in g.edges:
+            bonds.append(((resid, u), (resid, v)))
+        if i > 0:
+            bonds.append(((resid - 1, 'C'), (resid, 'N')))
+    return atoms, bonds
+
+
+def peptide_listings(spec, atoms, rng):
+    """the same peptide listed in different orders: [(label, atoms in order, key mode, rename)]"""
+    resids = sorted({a[0] for a in atoms})
+    out = [('n-to-c', list(atoms), 'dense', False)]
+    rev = sorted(atoms, key=lambda a: -a[0])
+    out.append(('c-to-n', rev, 'dense', False))
+    perm = resids[:]
+    rng.shuffle(perm)
+    if perm == resids:
+        perm = perm[1:] + perm[:1]
+    byres = {r: [a for a in atoms if a[0] == r] for r in resids}
+    lst = []
+    for r in perm:
+        block = byres[r][:]
+        rng.shuffle(block)
+        lst += block
+    out.append(('residues-%s' % ','.join(map(str, perm)), lst, 'random', False))
+    inter = list(atoms)
+    rng.shuffle(inter)
+    out.append(('interleaved', inter, 'dense', False))
+    if spec.get('scramble'):
+        inter2 = list(atoms)
+        rng.shuffle(inter2)
+        out.append(('interleaved-renamed', inter2, 'random', True))
+    return out
+
+
+def present_peptide(spec, atoms, bonds, order, keymode, rename, rng):
+    ff = FFS[spec['ff']][0]
+    mol = Molecule(force_field=ff)
+    index = {}
+    keys = list(range(len(order))) if keymode == 'dense' else rng.sample(range(500), len(order))
+    for i, (resid, name, element, resname, _) in enumerate(order):
+        index[resid, name] = keys[i]
+        mol.add_node(keys[i], atomname=('Q%d' % (i + 1)) if rename else name, element=element, resname=resname, resid=resid,
+                     chain='A', atomid=i + 1, position=np.array([float(i), 0.0, 0.0]))
+    mol.add_edges_from((index[u], index[v]) for u, v in bonds if u in index and v in index)
+    return mol
+
+
+def canon_peptide(out):
+    ident = {n: (out.nodes[n].get('resid'), out.nodes[n].get('atomname')) for n in out.nodes}
+    atoms = sorted((out.nodes[n].get('resid'), str(out.nodes[n].get('atomname')), str(out.nodes[n].get('element'))) for n in out.nodes)
+    bonds = sorted(tuple(sorted((ident[u], ident[v]), key=str)) for u, v in out.edges)
+    marked = sorted(ident[n] for n in out.nodes if out.nodes[n].get('PTM_atom'))
+    return atoms, bonds, marked
+
+
+pep_pending = []
+for pi, spec in enumerate(peptide_specs(chk.rng('peptides'))):
+    prng = random.Random(spec['seed'])
+    atoms, bonds = build_peptide(spec)
+    hs = [a for a in atoms if a[2] == 'H']
+    removed = set((a[0], a[1]) for a in prng.sample(hs, min(spec['missing_h'], len(hs))))
+    want_atoms = sorted((a[0], a[1], a[2]) for a in atoms)
+    want_bonds = sorted(tuple(sorted(b, key=str)) for b in bonds)
+    want_marked = sorted((a[0], a[1]) for a in atoms if a[4])
+    lo, hi = min(a[0] for a in atoms), max(a[0] for a in atoms)
+    runs = []
+    for label, order, keymode, rename in peptide_listings(spec, atoms, prng):
+        order = [a for a in order if (a[0], a[1]) not in removed]
+        mol = present_peptide(spec, atoms, bonds, order, keymode, rename, prng)
+        sysm = System(force_field=mol.force_field)
+        sysm.molecules = [mol]
+        quiet_vermouth_logs()
+        AnnotateMutMod(modifications=[('nter', 'N-ter'), ('cter', 'C-ter')]).run_system(sysm)
+        mol = sysm.molecules[0]
+        mol_in = mol.copy()
+        pre = prepare_inputs(mol_in)
+        res = run_real(mol, False)
+        chk.count('peptide_listing_%s' % label.split('-')[0])
+        chk.count('peptide_status_' + res['status'].split(':')[0])
+        runs.append((label, mol_in, pre, res))
+    pep_pending.append((pi, spec, runs, want_atoms, want_bonds, want_marked, lo, hi))
+
+pep_lines = []
+for pi, spec, runs, *_ in pep_pending:
+    for label, mol_in, pre, res in runs:
+        if res['status'] == 'timeout':
+            continue
+        if res['status'] == 'ok':
+            snap = res['snap']
+            pep_lines.append(line('repair', snap['nodes'], snap['edges'],
+                                  [[r['bnodes'], r['bedges'], r['found'], r['match'], r['common']] for r in snap['residues']]))
+        res['ref_lines'] = ref_lines(mol_in, pre, res)
+        pep_lines += [x[1] for x in res['ref_lines']]
+pep_ans = iter(chk.drv.ask(pep_lines) if chk.lean_ok and pep_lines else [None] * len(pep_lines))
+for pi, spec, runs, want_atoms, want_bonds, want_marked, lo, hi in pep_pending:
+    first = None
+    sp_json = json.dumps(spec, sort_keys=True)
+    for label, mol_in, pre, res in runs:
+        cid = 'peptide-%d:%s' % (pi, label)
+        errs = []
+        if res['status'] == 'timeout':
+            chk.count('inconclusive_timeout')
+            continue
+        if res['status'] != 'ok':
+            chk.case(cid, sp_json + ' ' + label, res['status'], None,
+                     ['peptide %s listed %s: the repair raised %s' % ('-'.join(spec['seq']), label, res['status'])], True)
+            for _ in res.get('ref_lines', []):
+                next(pep_ans)
+            continue
+        model = next(pep_ans)
+        impl = canon_result(res)
+        for kind, ln, rimpl in res['ref_lines']:
+            rmodel = next(pep_ans)
+            chk.count('model_line_' + kind.split('-')[0])
+            chk.case('%s:%s' % (cid, kind), sp_json + ' ' + label + ' ' + kind, rimpl, rmodel, [], True)
+            if rmodel is not None and rmodel != rimpl:
+                chk.notes.append('%s:%s: %s' % (cid, kind, explain_ref(rimpl, rmodel)))
+        got = canon_peptide(res['out'])
+        tag = 'peptide %s (resids %d..%d) listed %s: ' % ('-'.join(spec['seq']), lo, hi, label)
+        if got[0] != want_atoms:
+            errs.append(tag + 'atoms after the repair differ from the complete patched peptide: unexpected %s, absent %s'
+                        % (sorted(set(got[0]) - set(want_atoms))[:6], sorted(set(want_atoms) - set(got[0]))[:6]))
+        if got[1] != want_bonds:
+            errs.append(tag + 'bonds differ from the patched peptide: %s' % sorted(set(got[1]) ^ set(want_bonds), key=str)[:6])
+        if got[2] != want_marked:
+            errs.append(tag + 'atoms marked PTM_atom %s, the terminal modifications add %s' % (got[2], want_marked))
+        nter = [a for a in got[2] if a[0] != lo and a[1] in ('HN2', 'HN3')]
+        cter = [a for a in got[2] if a[0] != hi and a[1] == 'OXT']
+        if nter or cter:
+            errs.append(tag + 'terminal atoms on the wrong residue: %s (N terminus is resid %d, C terminus resid %d)'
+                        % (nter + cter, lo, hi))
+        if first is None:
+            first = (label, got)
+        elif got != first[1]:
+            errs.append(tag + 'the repaired peptide differs from the one obtained when it is listed %s '
+                        '(the result depends on the atom order)' % first[0])
+        chk.case(cid, sp_json + ' ' + label, impl, model, errs, True)
+        if errs or (model is not None and model != impl):
+            chk.notes.append('%s: %s' % (cid, explain(impl, model) if model is not None and model != impl else errs[0]))
+            if os.environ.get('VERIF_DEBUG'):
+                print(chk.notes[-1][:1500], flush=True)
 
 # ---- unknown residue: run_system deletes the molecule with a warning, or raises -------------------------
 from vermouth.system import System
